@@ -10,7 +10,10 @@ TECHNIQUE = ('table/constant agreement across the six Plex modules; path-sensiti
              'finite-domain evaluation of pure guard/assignment fragments by a checker-owned AST evaluator (pC50.Mini: no repository code is imported or run by '
              'CPython; unknown operands fork, unsupported constructs give ANALYSIS-ERROR) for the priority pipeline, the backup round trip, '
              'FastMachine.add_transitions, the input_state dispatch, the token / end-of-file / error decision of scan_a_token, the RE constructors\' nullable/match_nl and CodeRange; '
-             'one-letter-alphabet language computation for the Rep1/Opt/Rep construction schemata')
+             'one-letter-alphabet language computation for the Rep1/Opt/Rep construction schemata; '
+             'finite-domain evaluation by the checker-owned Python evaluator (sC50.PyEval: the Plex classes are interpreted from their AST, nothing is imported or run) of the '
+             'single-character constructors (language read off the NFA they build) and of TransitionMap over every order type of range end points; linear-form symbolic execution of '
+             'the buffer refill; def-use of the initial states')
 DECIDES = (
     'SENT: maxint is one integer in Regexps/Machines/Transitions, above every character code and inside its .pxd C type; LOWEST_PRIORITY (also as seen by DFA) '
     'is below every priority; a new TransitionMap is [-maxint, {}, +maxint]; split() special-cases only code == +maxint; add_transitions sends (-maxint, x) to the '
@@ -37,12 +40,20 @@ DECIDES = (
     'EOF: the decision table of Scanner.scan_a_token over (machine returned an action?) x (scan advanced past start_pos?) x (current symbol in EOF, EOL, BOL, \'\', None, '
     'ordinary character, newline): an action is always returned as (text, action); without an action a clean end of file (_, None) is reported when nothing was consumed and the '
     'symbol is EOF, and UnrecognizedInput is raised whenever the scan advanced or the symbol is an ordinary character (points with nothing consumed and a pseudo-symbol other '
-    'than EOF are evaluated but not constrained).')
-NOT_DECIDED = ('language equivalence of the generated DFA with the regular expressions for all lexicons and inputs; chars_to_ranges / uppercase_range / lowercase_range '
-               'arithmetic; the binary search inside TransitionMap.split and the loop bounds of add/add_set/iteritems; TransitionMap.iteritems\' else_set shortcut; '
+    'than EOF are evaluated but not constrained).  '
+    'CHARSET: Char(c) = {c}; Range(a, b) = [a, b] inclusive in pair and string form (end points in every position relative to newline); Any(s) = set(s) for every sequence of code '
+    'differences 1/2/3 up to length 4 and with newline; AnyBut(s) = complement; under nocase every letter brings its other-case twin (end points in every position relative to a/z/A/Z); '
+    'NoCase/Case override the enclosing flag - all read off the NFA that build_machine constructs through TransitionMap.  '
+    'TMAP: after every add / add_set sequence of <= 3 ranges over 5 ordered codes and the sentinels the code list increases strictly from -maxint to +maxint, every code class maps to '
+    'exactly the states added for it and iteritems() reports every non-empty segment with its own bounds.  '
+    'ROUTE: State(...) tokens are attached to the initial state created for that name, plain tokens to the default one; nfa_to_dfa registers initial DFA states under the loop key; '
+    'StateMap.make_key is injective and order independent on all subsets of three states.  '
+    'BUF: after a refill kept text and new data are contiguous, buf_start_pos (local and on self) is the position of buffer[0], buf_len its length, the index the offset of the next '
+    'unread position, the window still starts at or before start_pos, each read advances the position once; scan_a_token cuts the text with both bounds rebased by buf_start_pos.')
+NOT_DECIDED = ('language equivalence of the generated DFA with the regular expressions for all lexicons and inputs; Any(s)/AnyBut(s) for strings that REPEAT a character '
+               '(rule C50-CHARSET-DUP is written and reports the unmodified tree: FINDING_1, pending); TransitionMap beyond three ranges; '
                'that run_machine_inlined leaves cur_pos advanced when it blocks without a backup (C50-EOF takes this from the scan loop as decided by C50-BACKUP/C50-INPUT); '
-               'the buffer refill arithmetic (buf_index, discard) and cur_pos/cur_line/cur_line_start bookkeeping of the scan loop (only their save/restore/'
-               'write-back is decided); StateMap key construction; over-statement of nullable/match_nl (harmless: it only adds BOL edges that can never fire) is '
+               'cur_pos/cur_line/cur_line_start bookkeeping of the scan loop (only their save/restore/write-back is decided);  over-statement of nullable/match_nl (harmless: it only adds BOL edges that can never fire) is '
                'deliberately not reported.  The DESIGN clause "strict > in set_action/highest_priority_action" is replaced by the evaluated pipeline: with unique '
                'token numbers >= is behaviour-preserving, so demanding the operator itself would be a brittle proxy.')
 ASSUMPTIONS = ['token numbers stay far below 2**31 (priorities are C ints in the compiled module)',
@@ -109,9 +120,12 @@ MUTATIONS = [
     (P + 'Regexps.py', 'Seq.build_machine: (re.nullable and match_bol) or re.match_nl; Seq.__init__ nullable computed with if/False', None),
     (P + 'Scanners.py', 'input state 2 renumbered to 7 consistently; save and init backup tuples rotated; `not (b_action is None)`', None),
 ]
+# Fourth round: 25 breaking edits and 8 behaviour-preserving rewrites are kept as replayable patches under /verif/mutants/C50/<name>/ (see each meta.json).
 
 
 def run(ctx):
     px = pC50.Plex(ctx)
     return [pC50.rule_sentinel(px), pC50.rule_symbols(px), pC50.rule_priority(px), pC50.rule_backup(px), pC50.rule_split(px), pC50.rule_inf(px),
-            pC50.rule_nfa(px), pC50.rule_attrs(px), pC50.rule_closure(px), pC50.rule_protocol(px), sC50.rule_eof(px)]
+            pC50.rule_nfa(px), pC50.rule_attrs(px), pC50.rule_closure(px), pC50.rule_protocol(px), sC50.rule_eof(px),
+            sC50.rule_charset(px), sC50.rule_tmap(px), sC50.rule_route(px), sC50.rule_buffer(px)]
+    # sC50.rule_charset_duplicates(px)   # pending finding (FINDING_1: Any("aa") also matches "b")
